@@ -1,6 +1,7 @@
 package main
 
 import (
+	"encoding/hex"
 	"fmt"
 	"math"
 	"net"
@@ -8,6 +9,7 @@ import (
 	"net/url"
 	"regexp"
 	"strconv"
+	"strings"
 	"time"
 
 	"github.com/go-faster/jx"
@@ -269,6 +271,67 @@ func c13(r *lp.Run) {
 		rt(c, "conv.UnixNano", conv.UnixNanoToString, conv.ToUnixNano, ns, eqInstant(time.Nanosecond), reInt, shT)
 		rtJSON(c, "json.UnixNano", ogenjson.EncodeUnixNano, ogenjson.DecodeUnixNano, ns, eqInstant(time.Nanosecond), reInt, shT)
 		rtJSON(c, "json.StringUnixNano", ogenjson.EncodeStringUnixNano, ogenjson.DecodeStringUnixNano, ns, eqInstant(time.Nanosecond), quoted(reInt), shT)
+	}
+
+	// ---- UUID text against the Lean model of json.hexEncode / the 36-byte branch of uuid.ParseBytes ----
+	{
+		enc := func(u uuid.UUID) string {
+			return lp.Guard(func() string {
+				e := &jx.Encoder{}
+				ogenjson.EncodeUUID(e, u)
+				b := e.Bytes()
+				if len(b) < 2 || b[0] != '"' || b[len(b)-1] != '"' {
+					return "not-quoted:" + hex.EncodeToString(b)
+				}
+				return hex.EncodeToString(b[1 : len(b)-1])
+			})
+		}
+		// every byte value at every octet position, then random values
+		for pos := 0; pos < 16; pos++ {
+			for v := 0; v < 256; v++ {
+				var u uuid.UUID
+				for j := range u {
+					u[j] = byte(0x11 * j)
+				}
+				u[pos] = byte(v)
+				r.Case("uuidfmt", hex.EncodeToString(u[:]), enc(u), "uuidfmt", true)
+				if got := hex.EncodeToString([]byte(conv.UUIDToString(u))); got != enc(u) {
+					r.Fail(lp.PropFail{Property: "C13", What: "conv.UUIDToString and json.EncodeUUID write different texts", Input: hex.EncodeToString(u[:]), Observed: got, Expected: enc(u)})
+				}
+			}
+		}
+		r.Exhaustive("uuid octet × position", map[string]any{"positions": 16, "values": 256})
+		for i := 0; i < r.N(3000, 50000); i++ {
+			var u uuid.UUID
+			for j := range u {
+				u[j] = byte(rng.Uint64())
+			}
+			r.Case("uuidfmt", hex.EncodeToString(u[:]), enc(u), "uuidfmt", true)
+			// parser: the canonical text, and one-byte mutants of it (other case, non-digits, moved hyphens)
+			text := []byte(u.String())
+			for k := 0; k < 3; k++ {
+				m := append([]byte(nil), text...)
+				if k > 0 {
+					m[rng.Intn(36)] = lp.Pick(rng, []byte("0123456789abcdefABCDEFgG-_ xX/:@`"))
+				}
+				out := "err"
+				if v, err := uuid.ParseBytes(m); err == nil {
+					out = "ok:" + hex.EncodeToString(v[:])
+				}
+				d := jx.DecodeStr(`"` + string(m) + `"`)
+				if strings.IndexByte(string(m), '"') < 0 && strings.IndexByte(string(m), '\\') < 0 {
+					jv, jerr := ogenjson.DecodeUUID(d)
+					jout := "err"
+					if jerr == nil {
+						jout = "ok:" + hex.EncodeToString(jv[:])
+					}
+					if jout != out {
+						r.Fail(lp.PropFail{Property: "C13", What: "json.DecodeUUID and uuid.ParseBytes disagree on a 36-byte text", Input: string(m), Observed: jout, Expected: out})
+					}
+				}
+				r.Case("uuidparse", hex.EncodeToString(m), out, "uuidparse:"+out[:2], true)
+			}
+		}
 	}
 
 	// ---- UUID, IP, MAC, URL ----
